@@ -4,3 +4,4 @@ open Hera
 #print axioms C15_run_function
 #print axioms C15_throttle_cut
 #print axioms C15_throttle_uncut
+#print axioms C15_op_count_private
